@@ -652,6 +652,27 @@ func mkTree(r *rand.Rand, root string, depth int) []tnode {
 }
 
 func genC16(c *Ctx) {
+	// the whole table of dir2Npmode/dir2QidType: every combination of the mode bits they look at
+	for _, perm := range []uint32{0, 0o400, 0o644, 0o755, 0o777} {
+		for fl := 0; fl < 128; fl++ {
+			for _, dotu := range []bool{false, true} {
+				bits := []os.FileMode{os.ModeDir, os.ModeSymlink, os.ModeSocket, os.ModeNamedPipe, os.ModeDevice, os.ModeSetuid, os.ModeSetgid}
+				m := os.FileMode(perm)
+				txt := ""
+				for j, b := range bits {
+					if fl&(1<<j) != 0 {
+						m |= b
+						txt += "1"
+					} else {
+						txt += "0"
+					}
+				}
+				np, qt := g.VerifDir2Npmode(m, dotu)
+				c.emit(fmt.Sprintf("npmode %d %s %s", perm, txt, b2s(dotu)), fmt.Sprintf("%d %d", np, qt), true)
+			}
+		}
+	}
+	c.count("npmode-table")
 	i := 0
 	for k := 0; k < c.scale(30, 700) && !c.stop(); k++ {
 		i++
@@ -877,6 +898,165 @@ func errnoOf(err error) uint32 {
 	return uint32(en)
 }
 
+
+// ---- the plan of POSIX calls behind a mutating request: the harness's rendering of Ufs.Create and
+// Ufs.Wstat, compared line by line with lean/G9/UfsPlan.lean and applied to a third tree that must
+// stay identical to the exported one
+
+func bitSet(v uint32, m uint32) bool { return v&m != 0 }
+
+func planFileMode(dotu bool, perm uint32) uint32 {
+	m := perm & 0o777
+	if dotu && bitSet(perm, g.DMSETUID) {
+		m |= syscall.S_ISUID
+	}
+	if dotu && bitSet(perm, g.DMSETGID) {
+		m |= syscall.S_ISGID
+	}
+	return m
+}
+
+func goCreatePlan(dotu bool, perm uint32, omode uint8, extInRoot, extNumber, extFid bool) string {
+	switch {
+	case bitSet(perm, g.DMDIR):
+		return fmt.Sprintf("calls mkdir:%d,open:%d", perm&0o777, omode)
+	case bitSet(perm, g.DMSYMLINK):
+		if !extInRoot {
+			return "refuse eperm"
+		}
+		return fmt.Sprintf("calls symlink,open:%d", omode)
+	case bitSet(perm, g.DMLINK):
+		if !extNumber {
+			return "refuse strconv"
+		}
+		if !extFid {
+			return "refuse unknownfid"
+		}
+		return fmt.Sprintf("calls link,open:%d", omode)
+	case bitSet(perm, g.DMNAMEDPIPE):
+		return fmt.Sprintf("calls open:%d", omode)
+	case bitSet(perm, g.DMDEVICE):
+		return "refuse notimpl"
+	}
+	return fmt.Sprintf("calls creat:%d:%d", omode, planFileMode(dotu, perm))
+}
+
+func goWstatPlan(dotu bool, d *g.Dir, destInRoot bool) string {
+	var ops []string
+	if d.Mode != 0xFFFFFFFF {
+		ops = append(ops, fmt.Sprintf("chmod:%d", planFileMode(dotu, d.Mode)))
+	}
+	uid, gid := uint32(g.NOUID), uint32(g.NOUID)
+	if dotu {
+		uid, gid = d.Uidnum, d.Gidnum
+	} else if d.Uid != "" || d.Gid != "" {
+		return "refuse lookup" // by-name lookups are not exercised: the harness never names an owner
+	}
+	if uid != g.NOUID || gid != g.NOUID {
+		ops = append(ops, fmt.Sprintf("chown:%d:%d", uid, gid))
+	}
+	if d.Name != "" {
+		if !destInRoot {
+			return "refuse eperm"
+		}
+		ops = append(ops, "rename")
+	}
+	if d.Length != 0xFFFFFFFFFFFFFFFF {
+		ops = append(ops, fmt.Sprintf("truncate:%d", d.Length))
+	}
+	if d.Mtime != 0xFFFFFFFF || d.Atime != 0xFFFFFFFF {
+		mt := "file"
+		if d.Mtime != 0xFFFFFFFF {
+			mt = fmt.Sprint(d.Mtime)
+		}
+		ops = append(ops, fmt.Sprintf("chtimes:%d:%s", d.Atime, mt))
+	}
+	if len(ops) == 0 {
+		return "calls ~"
+	}
+	return "calls " + strings.Join(ops, ",")
+}
+
+func wstatPlanLine(dotu bool, d *g.Dir, destInRoot bool) string {
+	return fmt.Sprintf("wstatplan %s %d %d %d %s %s %s %s %d %d %d - -", b2s(dotu), d.Mode, d.Uidnum, d.Gidnum,
+		b2s(d.Uid != ""), b2s(d.Gid != ""), b2s(d.Name != ""), b2s(destInRoot), d.Length, d.Mtime, d.Atime)
+}
+
+// applyPlan makes the calls of a plan on path (ext: symlink target; linkSrc: the file a hard link names;
+// dest: rename destination); the first failing call ends it, as it ends the request in Ufs.
+func applyPlan(plan, path, ext, linkSrc, dest string) error {
+	f := strings.Fields(plan)
+	if len(f) < 2 || f[0] != "calls" || f[1] == "~" {
+		if f[0] == "refuse" {
+			return fmt.Errorf("refused: %s", f[1])
+		}
+		return nil
+	}
+	for _, op := range strings.Split(f[1], ",") {
+		a := strings.Split(op, ":")
+		n := func(i int) uint64 { return atou(a[i], 64) }
+		var err error
+		switch a[0] {
+		case "mkdir":
+			err = os.Mkdir(path, os.FileMode(n(1)))
+		case "symlink":
+			err = os.Symlink(ext, path)
+		case "link":
+			err = os.Link(linkSrc, path)
+		case "creat":
+			var fl *os.File
+			fl, err = os.OpenFile(path, g.VerifOmode2uflags(uint8(n(1)))|os.O_CREATE, os.FileMode(n(2)))
+			if err == nil {
+				fl.Close()
+			}
+		case "open":
+			var fl *os.File
+			fl, err = os.OpenFile(path, g.VerifOmode2uflags(uint8(n(1))), 0)
+			if err == nil {
+				fl.Close()
+			}
+		case "chmod":
+			err = os.Chmod(path, os.FileMode(n(1)))
+		case "chown":
+			err = os.Chown(path, int(uint32(n(1))), int(uint32(n(2))))
+		case "rename":
+			err = syscall.Rename(path, dest)
+			if err == nil {
+				path = dest
+			}
+		case "truncate":
+			err = os.Truncate(path, int64(n(1)))
+		case "chtimes":
+			mt := time.Time{}
+			if a[2] == "file" {
+				st, serr := os.Stat(path)
+				if serr != nil {
+					return serr
+				}
+				mt = st.ModTime()
+			} else {
+				mt = time.Unix(int64(n(2)), 0)
+			}
+			err = os.Chtimes(path, time.Unix(int64(n(1)), 0), mt)
+		default:
+			panic("applyPlan: " + op)
+		}
+		if err != nil {
+			return err
+		}
+	}
+	return nil
+}
+
+func exists(p string) bool { _, err := os.Lstat(p); return err == nil }
+
+func noTouchDir() *g.Dir {
+	d := &g.Dir{Type: 0xffff, Dev: 0xffffffff, Mode: 0xffffffff, Atime: 0xffffffff, Mtime: 0xffffffff,
+		Length: 0xffffffffffffffff, Uidnum: 0xffffffff, Gidnum: 0xffffffff, Muidnum: 0xffffffff}
+	d.Qid = g.Qid{Type: 0xff, Version: 0xffffffff, Path: 0xffffffffffffffff}
+	return d
+}
+
 func genC17(c *Ctx) {
 	for m := 0; m < 256; m++ {
 		c.emit(fmt.Sprintf("omode %d", m), fmt.Sprint(g.VerifOmode2uflags(uint8(m))), true)
@@ -896,9 +1076,11 @@ func genC17(c *Ctx) {
 		}
 		twin := filepath.Join(e.outer, "twin")
 		os.Mkdir(twin, 0o755)
+		ptree := filepath.Join(e.outer, "plan") // the tree the model's plan of POSIX calls is applied to
+		os.Mkdir(ptree, 0o755)
 		// identical starting trees
 		base := []string{"a", "b", "d1", "d1/x", "d2"}
-		for _, root := range []string{e.root, twin} {
+		for _, root := range []string{e.root, twin, ptree} {
 			os.WriteFile(filepath.Join(root, "a"), []byte("alpha"), 0o644)
 			os.WriteFile(filepath.Join(root, "b"), []byte("bravo-bravo"), 0o600)
 			os.Mkdir(filepath.Join(root, "d1"), 0o755)
@@ -909,6 +1091,9 @@ func genC17(c *Ctx) {
 		for step := 0; step < 10; step++ {
 			var what string
 			var e9, ep error
+			// the plan: whether the request reaches Ufs at all, its text, and the error of applying it
+			reached, plan, planLine := false, "", ""
+			var epl error
 			switch op := r.Intn(10); op {
 			case 8: // symlink (9P2000.u only), to an existing target, onto free and occupied names
 				if !dotu {
@@ -924,6 +1109,11 @@ func genC17(c *Ctx) {
 					target = "../" + target
 				}
 				what = fmt.Sprintf("symlink %s/%s -> %s", dir, name, target)
+				if reached = exists(filepath.Join(e.root, dir)); reached {
+					plan = goCreatePlan(dotu, g.DMSYMLINK, g.OREAD, true, false, false)
+					planLine = fmt.Sprintf("createplan %s %d %d 1 0 0", b2s(dotu), uint32(g.DMSYMLINK), g.OREAD)
+					epl = applyPlan(plan, filepath.Join(ptree, dir, name), target, "", "")
+				}
 				df, werr := e.c.FWalk(dir)
 				e9 = werr
 				if werr == nil {
@@ -944,6 +1134,11 @@ func genC17(c *Ctx) {
 				src := []string{"a", "b"}[r.Intn(2)]
 				name := []string{"hl1", "hl2", "b", "d1"}[r.Intn(4)]
 				what = fmt.Sprintf("link %s -> %s", name, src)
+				if reached = exists(filepath.Join(e.root, src)); reached {
+					plan = goCreatePlan(dotu, g.DMLINK, g.OREAD, true, true, true)
+					planLine = fmt.Sprintf("createplan %s %d %d 1 1 1", b2s(dotu), uint32(g.DMLINK), g.OREAD)
+					epl = applyPlan(plan, filepath.Join(ptree, name), "", filepath.Join(ptree, src), "")
+				}
 				sf, werr := e.c.FWalk(src)
 				df, werr2 := e.c.FWalk("")
 				e9 = werr
@@ -969,6 +1164,11 @@ func genC17(c *Ctx) {
 				perm := uint32([]int{0o644, 0o600, 0o755, 0o400, 0}[r.Intn(5)])
 				mode := uint8([]int{g.OREAD, g.OWRITE, g.ORDWR, g.OWRITE | g.OTRUNC}[r.Intn(4)])
 				what = fmt.Sprintf("create %s/%s perm %o mode %d", dir, name, perm, mode)
+				if reached = exists(filepath.Join(e.root, dir)); reached {
+					plan = goCreatePlan(dotu, perm, mode, true, false, false)
+					planLine = fmt.Sprintf("createplan %s %d %d 1 0 0", b2s(dotu), perm, mode)
+					epl = applyPlan(plan, filepath.Join(ptree, dir, name), "", "", "")
+				}
 				f, err := e.c.FCreate(filepath.Join(dir, name), perm, mode)
 				e9 = err
 				if err == nil {
@@ -992,6 +1192,11 @@ func genC17(c *Ctx) {
 				dir := []string{"", "d1", "d2"}[r.Intn(3)]
 				name := fmt.Sprintf("m%d", r.Intn(3))
 				what = fmt.Sprintf("mkdir %s/%s", dir, name)
+				if reached = exists(filepath.Join(e.root, dir)); reached {
+					plan = goCreatePlan(dotu, g.DMDIR|0o755, g.OREAD, true, false, false)
+					planLine = fmt.Sprintf("createplan %s %d %d 1 0 0", b2s(dotu), uint32(g.DMDIR|0o755), g.OREAD)
+					epl = applyPlan(plan, filepath.Join(ptree, dir, name), "", "", "")
+				}
 				f, err := e.c.FCreate(filepath.Join(dir, name), g.DMDIR|0o755, g.OREAD)
 				e9 = err
 				if err == nil {
@@ -1004,6 +1209,7 @@ func genC17(c *Ctx) {
 				what = "remove " + p
 				e9 = e.c.FRemove(p)
 				ep = os.Remove(filepath.Join(twin, p))
+				os.Remove(filepath.Join(ptree, p)) // no plan to speak of: remove(3)
 				if dotu && e9 != nil && ep != nil {
 					if ee, ok := e9.(*g.Error); ok && ee.Errornum != errnoOf(ep) {
 						c.oracleFail("C17/errno", fmt.Sprintf("%s: Rerror carries %d, the POSIX operation failed with %d (%v)", what, ee.Errornum, errnoOf(ep), ep), line)
@@ -1020,18 +1226,31 @@ func genC17(c *Ctx) {
 					_, e9 = f.Written(d, uint64(off))
 					f.Close()
 				}
-				pf, err := os.OpenFile(filepath.Join(twin, p), os.O_WRONLY, 0)
-				ep = err
-				if err == nil {
-					if len(d) > 0 {
-						_, ep = pf.WriteAt(d, int64(off))
+				for _, tree := range []string{twin, ptree} {
+					pf, err := os.OpenFile(filepath.Join(tree, p), os.O_WRONLY, 0)
+					if tree == twin {
+						ep = err
 					}
-					pf.Close()
+					if err == nil {
+						if len(d) > 0 {
+							_, werr := pf.WriteAt(d, int64(off))
+							if tree == twin {
+								ep = werr
+							}
+						}
+						pf.Close()
+					}
 				}
 			case 4: // truncate through wstat
 				p := []string{"a", "b", "d1/x"}[r.Intn(3)]
 				l := uint64([]int{0, 3, 100}[r.Intn(3)])
 				what = fmt.Sprintf("truncate %s to %d", p, l)
+				if reached = exists(filepath.Join(e.root, p)); reached {
+					pd := noTouchDir()
+					pd.Length = l
+					plan, planLine = goWstatPlan(dotu, pd, true), wstatPlanLine(dotu, pd, true)
+					epl = applyPlan(plan, filepath.Join(ptree, p), "", "", "")
+				}
 				if r.Intn(2) == 0 {
 					e9 = wstat(e.c, p, func(d *g.Dir) { d.Length = l })
 				} else {
@@ -1053,12 +1272,24 @@ func genC17(c *Ctx) {
 				p := live[r.Intn(len(live))]
 				perm := uint32([]int{0o600, 0o644, 0o755, 0o700}[r.Intn(4)])
 				what = fmt.Sprintf("chmod %s %o", p, perm)
+				if reached = exists(filepath.Join(e.root, p)); reached {
+					pd := noTouchDir()
+					pd.Mode = perm
+					plan, planLine = goWstatPlan(dotu, pd, true), wstatPlanLine(dotu, pd, true)
+					epl = applyPlan(plan, filepath.Join(ptree, p), "", "", "")
+				}
 				e9 = wstat(e.c, p, func(d *g.Dir) { d.Mode = perm })
 				ep = os.Chmod(filepath.Join(twin, p), os.FileMode(perm))
 			case 6: // rename through wstat, to a free or an occupied name
 				p := live[r.Intn(len(live))]
 				nn := []string{"renamed", "a", "b", "r2"}[r.Intn(4)]
 				what = fmt.Sprintf("rename %s to %s", p, nn)
+				if reached = exists(filepath.Join(e.root, p)); reached {
+					pd := noTouchDir()
+					pd.Name = nn
+					plan, planLine = goWstatPlan(dotu, pd, true), wstatPlanLine(dotu, pd, true)
+					epl = applyPlan(plan, filepath.Join(ptree, p), "", "", filepath.Join(ptree, filepath.Dir(p), nn))
+				}
 				e9 = wstat(e.c, p, func(d *g.Dir) { d.Name = nn })
 				// rename(2) itself: os.Rename adds a check of its own for existing directories
 				ep = syscall.Rename(filepath.Join(twin, p), filepath.Join(twin, filepath.Dir(p), nn))
@@ -1067,6 +1298,12 @@ func genC17(c *Ctx) {
 				p := []string{"a", "b"}[r.Intn(2)]
 				mt := uint32(1_000_000_000 + r.Intn(1000))
 				what = fmt.Sprintf("mtime %s", p)
+				if reached = exists(filepath.Join(e.root, p)); reached {
+					pd := noTouchDir()
+					pd.Mtime = mt
+					plan, planLine = goWstatPlan(dotu, pd, true), wstatPlanLine(dotu, pd, true)
+					epl = applyPlan(plan, filepath.Join(ptree, p), "", "", "")
+				}
 				e9 = wstat(e.c, p, func(d *g.Dir) { d.Mtime = mt })
 				st, serr := os.Stat(filepath.Join(twin, p))
 				ep = serr
@@ -1082,6 +1319,17 @@ func genC17(c *Ctx) {
 				}
 			}
 			c.count("op:" + strings.Fields(what)[0])
+			if reached && planLine != "" {
+				// the model's plan is the harness's plan (the driver answers the same line) …
+				c.emit(planLine, plan, true)
+				c.count("plan:" + strings.Fields(what)[0])
+				// … and applied to the third tree it does what Ufs did to the exported one, failure or not
+				if (e9 == nil) != (epl == nil) {
+					c.oracleFail("C17/plan-differs/outcome/"+strings.Fields(what)[0], fmt.Sprintf("%s: through 9P %v, the planned calls (%s) %v", what, e9, plan, epl), line)
+				} else if d := diffSnap(snapTree(e.root), snapTree(ptree)); d != "" {
+					c.oracleFail("C17/plan-differs/tree/"+strings.Fields(what)[0], fmt.Sprintf("after %s (9P: %v; planned calls %s: %v): %s", what, e9, plan, epl, d), line)
+				}
+			}
 			if (e9 == nil) != (ep == nil) {
 				kind := strings.Fields(what)[0]
 				if (kind == "symlink" || kind == "link") && e9 != nil && ep == nil {
